@@ -13,20 +13,36 @@ import (
 	"time"
 
 	task "github.com/go-task/task/v3"
+	"github.com/go-task/task/v3/taskfile/ast"
 	"github.com/go-task/task/v3/verifhook"
 )
 
 func init() {
 	domains["sched"] = domain{runSched,
 		"random task graphs (deps, nested task: calls, defer:, failing commands with exit codes 1..255, ignore_error at command and task level, " +
-			"run: once/when_changed shared tasks, guards: platforms/requires/enum/preconditions/status/prompt/internal; a stream of failing shared tasks reached " +
+			"run: once/when_changed shared tasks, guards: platforms/requires/enum/preconditions/status/prompt/internal, tasks that do not compile: a template " +
+			"error in label/env/prefix/summary, with and without sources:; a stream of failing shared tasks reached " +
 			"both from the command line and through deps / task: entries, so that top-level callers wait for indirectly started executions and vice versa) rendered to a Taskfile and run " +
 			"in-process through Executor.Setup/Run with --concurrency 0..3, --parallel, --force, --force-all, --yes; the schedule is perturbed by seeded random " +
 			"delays at every instrumentation point; the event log is replayed by the Lean LTS. non-trivial = the run had at least two activations " +
 			"alive at once or took a dedup / guard / failure / defer branch; distinct by (program, flags, event order). A stream of reference cycles through " +
 			"deduplicated tasks (a ring with run: once / when_changed members; such a ring entered by several top-level calls under --parallel; a deferred " +
 			"task: call back into the running execution) must end — with the 'called too many times' class (204, or 201 wrapping it) where the cycle is " +
-			"not behind a defer — and log the refused wait (waitCycle)"}
+			"not behind a defer — and log the refused wait (waitCycle). Names are a rendering choice the model does not see: tasks get aliases or are " +
+			"wildcard tasks (t3-* called as t3-x / t3-y), every reference (command line, deps, task: entries, deferred task calls) picks one of the callee's names, " +
+			"one program in four lives in an included Taskfile under names that contain ':' and share their last segment (n:t3:k, n:t4:k); dedup keys are " +
+			"numbered per (task, hash), so an execution shared by two different tasks is rejected. Streams: cut-short (the one execution of a deduplicated " +
+			"task is cancelled by the failure of a sibling in its caller's dependency group, a tolerant ancestor swallows that failure, and a caller outside the " +
+			"group — later, or concurrently under --parallel / as a sibling dependency — must observe that the execution did not succeed); guard-pairs (every " +
+			"guard outcome of one task drawn independently: the order of the guards decides the result); prompt-slots (confirmed prompts under --concurrency " +
+			"with --parallel calls, sibling dependencies and nested calls competing for the slots); defer-call-vars (deferred task: entries that pass the exit " +
+			"code, a variable of the deferring task, a literal or nothing, some with a templated name, below tolerant callers that run the task " +
+			"again); once-group (several different deduplicated tasks reached in one invocation, every other group in the included file); many-refs " +
+			"(acyclic programs with >= 1000 references to one task: binary tree of depth 10, for: loop, run: once callee — open finding, the call limit " +
+			"counts references). What a reference passes as variable V (nothing, a literal, a variable of the referrer, the referrer's own V, for deferred " +
+			"calls the exit code) is program data; every command prints the V it sees and the driver compares it with the value computed beside the " +
+			"acceptor (verdict C02v). Key discipline (verdict C06k): one key per run: once task, one per (when_changed task, V), none shared by two " +
+			"tasks. The value checked against enum: is rendered as a string, a YAML number, a boolean, or passed as a number by every reference"}
 }
 
 // ---- abstract program (mirrors TaskModel.Sched.TaskDef)
@@ -36,15 +52,24 @@ type sCmd struct {
 	Code      int  `json:"code"`
 	IgnoreErr bool `json:"ignore_err,omitempty"`
 	Deferred  bool `json:"deferred,omitempty"`
-	Var       int  `json:"var"` // value passed as V in a call (-1 = none)
+	// Var: what a call passes as variable V (model: Sched.Pass): -1 nothing, n >= 0 the literal 'n', -2 '{{.EXIT_CODE}}'
+	// (deferred calls), -3 '{{.LOCAL}}' (a task-level variable of the calling task), -4 '{{.V}}' (the caller's own V)
+	Var int `json:"var"`
+	// TplName (rendering only): the callee's name is written as a template over a variable of the calling task
+	TplName bool `json:"tpl_name,omitempty"`
 	// CallIgnore: `ignore_error: true` written on a `task:` command.  Task does not read that key on task
 	// calls (only on shell commands and on tasks), so it must change nothing: it is not part of the model's program.
 	CallIgnore bool `json:"call_ignore,omitempty"`
+	// Ref: under which of the callee's names the entry refers to it (rendering only, see refName)
+	Ref int `json:"ref,omitempty"`
 }
 
 type sDep struct {
 	Task int `json:"task"`
 	Var  int `json:"var"`
+	Ref  int `json:"ref,omitempty"` // rendering only, see refName
+	// TplName (rendering only): the name is written as a template over a variable of the depending task
+	TplName bool `json:"tpl_name,omitempty"`
 }
 
 type sTask struct {
@@ -59,20 +84,48 @@ type sTask struct {
 	PrecondOk   bool   `json:"precond_ok"`
 	UpToDate    bool   `json:"up_to_date,omitempty"`
 	Prompt      bool   `json:"prompt,omitempty"`
+	// CompileErr > 0: the task does not compile (model: compileOk = false) — a template that fails when it is
+	// executed, in a task-level field: 1 label, 2 env, 3 prefix, 4 summary (not `dir:` — that one is templated by
+	// the variable compiler already, so FastCompiledTask reports it, before the platform check).  CompileSrc (rendering only): the task
+	// also declares `sources:`, so that compiling it goes through the checksum variable and the templater's reset
+	// EnumKind (rendering only): how the variable checked against `enum:` gets its value.  0: a string in the task's
+	// vars, the requirement written only when EnumOk is false (`EV: bad` against [good]).  > 0: the requirement is
+	// always written and the value — allowed or not, by EnumOk — is NOT a YAML string: 1 a number in the task's vars
+	// (`EV: 3` / `EV: 1` against ['1','2']), 2 a boolean (`EV: true` / `EV: false` against ['false','no']), 3 a number
+	// passed by every reference (`vars: {EV: 3}` in deps / task: entries / on the command line)
+	EnumKind   int  `json:"enum_kind,omitempty"`
+	CompileErr int  `json:"compile_err,omitempty"`
+	CompileSrc bool `json:"compile_src,omitempty"`
+	// Rendering only — the model's program does not know how a task is named:
+	// Aliases: the task has that many aliases (`aliases: [t<i>a, t<i>b]`); Wild: it is a wildcard task (`t<i>-*`)
+	// that every reference calls by a concrete name (`t<i>-x`, `t<i>-y`, `t<i>-z`).  Which name a reference
+	// uses is the reference's Ref.  Every activation must behave as if the task had been called by its key.
+	Aliases int  `json:"aliases,omitempty"`
+	Wild    bool `json:"wild,omitempty"`
 }
 
 type schedCase struct {
 	Tasks    []sTask `json:"tasks"`
 	Calls    []int   `json:"calls"`
-	Cap      int     `json:"cap"` // 0 = unlimited
-	Parallel bool    `json:"parallel,omitempty"`
-	Force    bool    `json:"force,omitempty"`
-	ForceAll bool    `json:"force_all,omitempty"`
-	Yes      bool    `json:"yes,omitempty"`
-	Term     bool    `json:"term,omitempty"`   // a terminal is assumed (Logger.AssumeTerm): prompts read an answer
-	Answer   string  `json:"answer,omitempty"` // with Term: y | n | eof (what every prompt reads)
-	Jitter   int64   `json:"jitter"`
-	Seed     int64   `json:"seed"`
+	CallRefs []int   `json:"call_refs,omitempty"` // rendering only: the name each command-line call uses (refName)
+	// Inc (rendering only): the tasks live in an included Taskfile (namespace `n`) and their own names there
+	// contain ':' and all end in the same segment (`t3:k`, `t4:k`, aliases `t3a:k`, wildcard `t3:k-*`)
+	Inc bool `json:"inc,omitempty"`
+	// Loop (rendering only): a run of identical consecutive `task:` entries is written as ONE entry with `for:`
+	// over a list of that many items (the compiled task has the entries one by one, as the abstract program does)
+	Loop bool `json:"loop,omitempty"`
+	// ManyRefs: an ACYCLIC program in which one task is referred to at least MaximumTaskCall times (the limit counts
+	// calls, not depth: the 1000th call ends with 204 — open finding C07-call-limit-hits-acyclic-graphs)
+	ManyRefs bool   `json:"many_refs,omitempty"`
+	Cap      int    `json:"cap"` // 0 = unlimited
+	Parallel bool   `json:"parallel,omitempty"`
+	Force    bool   `json:"force,omitempty"`
+	ForceAll bool   `json:"force_all,omitempty"`
+	Yes      bool   `json:"yes,omitempty"`
+	Term     bool   `json:"term,omitempty"`   // a terminal is assumed (Logger.AssumeTerm): prompts read an answer
+	Answer   string `json:"answer,omitempty"` // with Term: y | n | eof (what every prompt reads)
+	Jitter   int64  `json:"jitter"`
+	Seed     int64  `json:"seed"`
 	// Barrier > 0: every shell command writes to a stdout that blocks until Barrier activations have
 	// entered (work-conservation probe: dependencies must all be started although only `cap` can run)
 	Barrier int `json:"barrier,omitempty"`
@@ -92,13 +145,148 @@ func (g *gateWriter) Write(p []byte) (int, error) {
 	return len(p), nil
 }
 
-func tname(i int) string { return fmt.Sprintf("t%d", i) }
+// ---- names (rendering only).  A task is written under its key and may be referred to by other names:
+//
+//	plain      key t<i>        (Inc: t<i>:k)        aliases t<i>a, t<i>b   (Inc: t<i>a:k, t<i>b:k)
+//	wildcard   key t<i>-*      (Inc: t<i>:k-*)      called as t<i>-x | -y | -z
+//
+// From outside the included file (the command line) every name carries the namespace `n:`.
 
-func renderSched(d schedCase) string {
+var wildWords = []string{"x", "y", "z"}
+
+func (d schedCase) keyName(i int) string {
+	nm := fmt.Sprintf("t%d", i)
+	if d.Inc {
+		nm += ":k"
+	}
+	if i < len(d.Tasks) && d.Tasks[i].Wild {
+		nm += "-*"
+	}
+	return nm
+}
+
+func (d schedCase) aliasName(i, k int) string {
+	nm := fmt.Sprintf("t%d%c", i, 'a'+k)
+	if d.Inc {
+		nm += ":k"
+	}
+	return nm
+}
+
+// refName: the name reference number `ref` uses for task i, as written inside the file that defines the tasks
+func (d schedCase) refName(i, ref int) string {
+	if i < 0 || i >= len(d.Tasks) {
+		return fmt.Sprintf("t%d", i)
+	}
+	t := d.Tasks[i]
+	if ref < 0 {
+		ref = -ref
+	}
+	switch {
+	case t.Wild:
+		nm := fmt.Sprintf("t%d", i)
+		if d.Inc {
+			nm += ":k"
+		}
+		if t.Run == "when_changed" {
+			// the match is a variable of the task (.MATCH, .ALIAS), so it is part of the when_changed key: keep to one
+			// word (the model's key owner is (task, V)); a run: once key is by task only — any word will do
+			ref = 0
+		}
+		return nm + "-" + wildWords[ref%len(wildWords)]
+	case t.Aliases > 0 && t.Run == "when_changed":
+		// the name a task is called by is a variable it can read (.ALIAS; .MATCH for a wildcard match), so it is part
+		// of the run: when_changed key like every other call variable: `task w` and `task wa` are two executions.
+		// The model's key owner is (task, V): generated programs keep to ONE name per when_changed task.
+		return d.aliasName(i, 0)
+	case ref > 0 && t.Aliases > 0:
+		return d.aliasName(i, (ref-1)%t.Aliases)
+	}
+	return d.keyName(i)
+}
+
+// cliName: the name the k-th command-line call uses
+func (d schedCase) cliName(k int) string {
+	ref := 0
+	if k < len(d.CallRefs) {
+		ref = d.CallRefs[k]
+	}
+	nm := d.refName(d.Calls[k], ref)
+	if d.Inc {
+		nm = "n:" + nm
+	}
+	return nm
+}
+
+// passText: the template a reference writes for V (nothing for -1)
+func passText(v int) string {
+	switch {
+	case v >= 0:
+		return fmt.Sprintf("V: '%d'", v)
+	case v == -2:
+		return "V: '{{.EXIT_CODE}}'"
+	case v == -3:
+		return "V: '{{.LOCAL}}'"
+	case v == -4:
+		return "V: '{{.V}}'"
+	}
+	return ""
+}
+
+// enumVal: the (non-string) value of the checked variable for EnumKind 1..3
+func enumVal(t sTask) string {
+	switch t.EnumKind {
+	case 1, 3:
+		if t.EnumOk {
+			return "1"
+		}
+		return "3"
+	case 2:
+		if t.EnumOk {
+			return "false"
+		}
+		return "true"
+	}
+	return "bad"
+}
+
+func enumList(t sTask) string {
+	switch t.EnumKind {
+	case 1, 3:
+		return "['1', '2']"
+	case 2:
+		return "['false', 'no']"
+	}
+	return "[good]"
+}
+
+// refVars: the vars: mapping of a reference to task `callee` passing `v` (flow style; "" if empty)
+func (d schedCase) refVars(callee, v int) string {
+	var es []string
+	if pt := passText(v); pt != "" {
+		es = append(es, pt)
+	}
+	if callee >= 0 && callee < len(d.Tasks) && d.Tasks[callee].EnumKind == 3 {
+		es = append(es, "EV: "+enumVal(d.Tasks[callee]))
+	}
+	if len(es) == 0 {
+		return ""
+	}
+	return "{" + strings.Join(es, ", ") + "}"
+}
+
+func renderSched(d schedCase) (string, string) {
 	var b strings.Builder
 	b.WriteString("version: '3'\nsilent: true\ntasks:\n")
 	for i, t := range d.Tasks {
-		fmt.Fprintf(&b, "  %s:\n", tname(i))
+		fmt.Fprintf(&b, "  %q:\n", d.keyName(i))
+		if t.Aliases > 0 && !t.Wild {
+			var as []string
+			for k := 0; k < t.Aliases; k++ {
+				as = append(as, fmt.Sprintf("%q", d.aliasName(i, k)))
+			}
+			fmt.Fprintf(&b, "    aliases: [%s]\n", strings.Join(as, ", "))
+		}
 		if t.Run != "always" {
 			fmt.Fprintf(&b, "    run: %s\n", t.Run)
 		}
@@ -111,12 +299,45 @@ func renderSched(d schedCase) string {
 		if !t.PlatformOk {
 			b.WriteString("    platforms: [windows/386]\n")
 		}
-		if !t.RequiresOk && !t.EnumOk {
-			b.WriteString("    requires:\n      vars: [MISSING_REQ, {name: EV, enum: [good]}]\n    vars: {EV: bad}\n")
-		} else if !t.RequiresOk {
-			b.WriteString("    requires:\n      vars: [MISSING_REQ]\n")
-		} else if !t.EnumOk {
-			b.WriteString("    requires:\n      vars: [{name: EV, enum: [good]}]\n    vars: {EV: bad}\n")
+		// the task's own variables: the value checked against enum:, LOCAL (handed on by references that pass it),
+		// and the names of callees written as templates
+		var tvars []string
+		enumReq := !t.EnumOk || t.EnumKind > 0
+		if enumReq && t.EnumKind != 3 {
+			tvars = append(tvars, "EV: "+enumVal(t))
+		}
+		usesLocal := false
+		for j, dp := range t.Deps {
+			if dp.Var == -3 {
+				usesLocal = true
+			}
+			if dp.TplName {
+				tvars = append(tvars, fmt.Sprintf("NMd%d: %q", j, d.refName(dp.Task, dp.Ref)))
+			}
+		}
+		for j, c := range t.Cmds {
+			if c.Call >= 0 && c.Var == -3 {
+				usesLocal = true
+			}
+			if c.Call >= 0 && c.TplName {
+				tvars = append(tvars, fmt.Sprintf("NMc%d: %q", j, d.refName(c.Call, c.Ref)))
+			}
+		}
+		if usesLocal {
+			tvars = append(tvars, fmt.Sprintf("LOCAL: 'L%d'", i))
+		}
+		var reqs []string
+		if !t.RequiresOk {
+			reqs = append(reqs, "MISSING_REQ")
+		}
+		if enumReq {
+			reqs = append(reqs, "{name: EV, enum: "+enumList(t)+"}")
+		}
+		if len(reqs) > 0 {
+			fmt.Fprintf(&b, "    requires:\n      vars: [%s]\n", strings.Join(reqs, ", "))
+		}
+		if len(tvars) > 0 {
+			fmt.Fprintf(&b, "    vars: {%s}\n", strings.Join(tvars, ", "))
 		}
 		if !t.PrecondOk {
 			b.WriteString("    preconditions:\n      - sh: 'exit 1'\n        msg: nope\n")
@@ -127,33 +348,74 @@ func renderSched(d schedCase) string {
 		if t.Prompt {
 			b.WriteString("    prompt: 'sure?'\n")
 		}
+		switch t.CompileErr {
+		case 1:
+			b.WriteString("    label: 'L{{index .NOSUCH 99}}'\n")
+		case 2:
+			b.WriteString("    env: {CE: '{{index .NOSUCH 99}}'}\n")
+		case 3:
+			b.WriteString("    prefix: 'P{{index .NOSUCH 99}}'\n")
+		case 4:
+			b.WriteString("    summary: 'S{{index .NOSUCH 99}}'\n")
+		}
+		if t.CompileErr > 0 && t.CompileSrc {
+			b.WriteString("    sources: ['Taskfile.yml']\n")
+		}
+		nameOf := func(callee, ref int, tpl bool, pos string) string {
+			if tpl {
+				return fmt.Sprintf("'{{.NM%s}}'", pos)
+			}
+			return fmt.Sprintf("%q", d.refName(callee, ref))
+		}
 		if len(t.Deps) > 0 {
 			b.WriteString("    deps:\n")
-			for _, dp := range t.Deps {
-				if dp.Var >= 0 {
-					fmt.Fprintf(&b, "      - task: %s\n        vars: {V: '%d'}\n", tname(dp.Task), dp.Var)
-				} else {
-					fmt.Fprintf(&b, "      - task: %s\n", tname(dp.Task))
+			for j, dp := range t.Deps {
+				fmt.Fprintf(&b, "      - task: %s\n", nameOf(dp.Task, dp.Ref, dp.TplName, fmt.Sprintf("d%d", j)))
+				if vs := d.refVars(dp.Task, dp.Var); vs != "" {
+					fmt.Fprintf(&b, "        vars: %s\n", vs)
 				}
 			}
 		}
 		if len(t.Cmds) > 0 {
 			b.WriteString("    cmds:\n")
-			for _, c := range t.Cmds {
+			skip := 0
+			for j, c := range t.Cmds {
+				if skip > 0 {
+					skip--
+					continue
+				}
+				pos := fmt.Sprintf("c%d", j)
+				if d.Loop && c.Call >= 0 && !c.Deferred && !c.TplName {
+					run := 1
+					for j+run < len(t.Cmds) && t.Cmds[j+run] == c {
+						run++
+					}
+					if run > 1 {
+						fmt.Fprintf(&b, "      - for: [%s]\n        task: %s\n", strings.TrimSuffix(strings.Repeat("x, ", run), ", "), nameOf(c.Call, c.Ref, false, pos))
+						if vs := d.refVars(c.Call, c.Var); vs != "" {
+							fmt.Fprintf(&b, "        vars: %s\n", vs)
+						}
+						skip = run - 1
+						continue
+					}
+				}
 				switch {
 				case c.Call >= 0 && c.Deferred:
-					fmt.Fprintf(&b, "      - defer: {task: %s}\n", tname(c.Call))
-				case c.Call >= 0:
-					if c.Var >= 0 {
-						fmt.Fprintf(&b, "      - task: %s\n        vars: {V: '%d'}\n", tname(c.Call), c.Var)
+					if vs := d.refVars(c.Call, c.Var); vs != "" {
+						fmt.Fprintf(&b, "      - defer: {task: %s, vars: %s}\n", nameOf(c.Call, c.Ref, c.TplName, pos), vs)
 					} else {
-						fmt.Fprintf(&b, "      - task: %s\n", tname(c.Call))
+						fmt.Fprintf(&b, "      - defer: {task: %s}\n", nameOf(c.Call, c.Ref, c.TplName, pos))
+					}
+				case c.Call >= 0:
+					fmt.Fprintf(&b, "      - task: %s\n", nameOf(c.Call, c.Ref, c.TplName, pos))
+					if vs := d.refVars(c.Call, c.Var); vs != "" {
+						fmt.Fprintf(&b, "        vars: %s\n", vs)
 					}
 					if c.CallIgnore {
 						b.WriteString("        ignore_error: true\n")
 					}
 				case c.Deferred:
-					fmt.Fprintf(&b, "      - defer: ': \"EC=[{{.EXIT_CODE}}]\"; exit %d'\n", c.Code)
+					fmt.Fprintf(&b, "      - defer: ': \"EC=[{{.EXIT_CODE}}] V={{.V}}\"; exit %d'\n", c.Code)
 				default:
 					if d.Barrier > 0 {
 						fmt.Fprintf(&b, "      - cmd: 'printf B; exit %d'\n", c.Code)
@@ -176,7 +438,10 @@ func renderSched(d schedCase) string {
 			}
 		}
 	}
-	return b.String()
+	if d.Inc {
+		return "version: '3'\nsilent: true\nincludes:\n  n: ./inc\n", b.String()
+	}
+	return b.String(), ""
 }
 
 var flakyNo int
@@ -224,14 +489,77 @@ func progTokens(d schedCase) string {
 				fmt.Fprintf(&b, " s %d %s %s", c.Code, b2s(c.IgnoreErr), b2s(c.Deferred))
 			}
 		}
-		fmt.Fprintf(&b, " %s %s %s %s %s %s %s %s %s", b2s(t.IgnoreError), t.Run, b2s(t.Internal), b2s(t.PlatformOk), b2s(t.RequiresOk),
-			b2s(t.EnumOk), b2s(t.PrecondOk), b2s(t.UpToDate), b2s(t.Prompt))
+		fmt.Fprintf(&b, " %s %s %s %s %s %s %s %s %s %s", b2s(t.IgnoreError), t.Run, b2s(t.Internal), b2s(t.PlatformOk), b2s(t.RequiresOk),
+			b2s(t.EnumOk), b2s(t.PrecondOk), b2s(t.UpToDate), b2s(t.Prompt), b2s(t.CompileErr == 0))
 	}
 	fmt.Fprintf(&b, " C %d", len(d.Calls))
 	for _, c := range d.Calls {
 		fmt.Fprintf(&b, " %d", c)
 	}
+	// what every reference passes as V (model: Sched.Passes)
+	pt := func(v int) string {
+		switch {
+		case v >= 0:
+			return fmt.Sprintf(" l %d", v)
+		case v == -2:
+			return " e"
+		case v == -3:
+			return " o"
+		case v == -4:
+			return " w"
+		}
+		return " n"
+	}
+	fmt.Fprintf(&b, " V %d", len(d.Tasks))
+	for _, t := range d.Tasks {
+		fmt.Fprintf(&b, " %d", len(t.Deps))
+		for _, dp := range t.Deps {
+			b.WriteString(pt(dp.Var))
+		}
+		fmt.Fprintf(&b, " %d", len(t.Cmds))
+		for _, c := range t.Cmds {
+			if c.Call >= 0 {
+				b.WriteString(pt(c.Var))
+			} else {
+				b.WriteString(" n")
+			}
+		}
+	}
 	return b.String()
+}
+
+var vRe = regexp.MustCompile(`V=([^" ]*)"`)
+
+// valCode: the model's encoding of a printed value of V (Sched.MonVal): "" -> 0, the numeral n -> 2n+3, L<t> -> 2t+2
+func valCode(v string) int {
+	if v == "" {
+		return 0
+	}
+	if n, err := strconv.Atoi(v); err == nil && n >= 0 {
+		return 2*n + 3
+	}
+	if strings.HasPrefix(v, "L") {
+		if n, err := strconv.Atoi(v[1:]); err == nil && n >= 0 {
+			return 2*n + 2
+		}
+	}
+	return 999999999
+}
+
+// obsTokens: the value of V every started command of the log shows (the command text is logged after templating)
+func obsTokens(o schedObs) string {
+	var b strings.Builder
+	n := 0
+	for _, ev := range o.events {
+		if ev.Kind != "cmdStart" {
+			continue
+		}
+		if m := vRe.FindStringSubmatch(strings.Join(ev.Args, " ")); m != nil {
+			fmt.Fprintf(&b, " %d %d", ev.Act, valCode(m[1]))
+			n++
+		}
+	}
+	return fmt.Sprintf("O %d%s", n, b.String())
 }
 
 type schedObs struct {
@@ -264,9 +592,15 @@ func answerReader(d schedCase) io.Reader {
 	return strings.NewReader("")
 }
 
+// taskIndex: the abstract task a name (key, alias, concrete wildcard name; with or without the namespace) stands for
 func taskIndex(name string) int {
+	name = strings.TrimPrefix(name, "n:")
 	if strings.HasPrefix(name, "t") {
-		if n, err := strconv.Atoi(name[1:]); err == nil {
+		j := 1
+		for j < len(name) && name[j] >= '0' && name[j] <= '9' {
+			j++
+		}
+		if n, err := strconv.Atoi(name[1:j]); err == nil {
 			return n
 		}
 	}
@@ -276,8 +610,15 @@ func taskIndex(name string) int {
 func runSchedImpl(d schedCase, dir string) schedObs {
 	os.MkdirAll(dir, 0o755)
 	defer os.RemoveAll(dir)
-	if err := os.WriteFile(filepath.Join(dir, "Taskfile.yml"), []byte(renderSched(d)), 0o644); err != nil {
+	rootY, incY := renderSched(d)
+	if err := os.WriteFile(filepath.Join(dir, "Taskfile.yml"), []byte(rootY), 0o644); err != nil {
 		panic(err)
+	}
+	if d.Inc {
+		os.MkdirAll(filepath.Join(dir, "inc"), 0o755)
+		if err := os.WriteFile(filepath.Join(dir, "inc", "Taskfile.yml"), []byte(incY), 0o644); err != nil {
+			panic(err)
+		}
 	}
 	var stdout io.Writer = io.Discard
 	var gate *gateWriter
@@ -297,7 +638,13 @@ func runSchedImpl(d schedCase, dir string) schedObs {
 	}
 	calls := make([]*task.Call, len(d.Calls))
 	for i, c := range d.Calls {
-		calls[i] = &task.Call{Task: tname(c)}
+		calls[i] = &task.Call{Task: d.cliName(i)}
+		if c >= 0 && c < len(d.Tasks) && d.Tasks[c].EnumKind == 3 {
+			// the checked variable arrives as a call variable that is a number, not a string
+			vs := ast.NewVars()
+			vs.Set("EV", ast.Var{Value: map[bool]int{true: 1, false: 3}[d.Tasks[c].EnumOk]})
+			calls[i].Vars = vs
+		}
 	}
 	verifhook.Reset(d.Seed, d.Jitter)
 	done := make(chan error, 1)
@@ -327,7 +674,8 @@ func runSchedImpl(d schedCase, dir string) schedObs {
 	select {
 	case err := <-done:
 		o.result = resTok(verifhook.ErrClass(err))
-	case <-time.After(map[bool]time.Duration{true: 3 * time.Second, false: 45 * time.Second}[d.Hang]):
+	// (the 1000-deep recursion takes ~12 s on an idle machine and has been seen to take 45 s under a load average of 70)
+	case <-time.After(map[bool]time.Duration{true: 3 * time.Second, false: 90 * time.Second}[d.Hang]):
 		o.hang = true
 		o.result = "hang"
 	}
@@ -343,6 +691,7 @@ func runSchedImpl(d schedCase, dir string) schedObs {
 func traceTokens(o schedObs) (string, int, map[string]int) {
 	keys := map[string]int{}
 	feats := map[string]int{}
+	actTask := map[int64]int{}
 	var b strings.Builder
 	fmt.Fprintf(&b, "E %d", len(o.events))
 	for _, ev := range o.events {
@@ -351,16 +700,21 @@ func traceTokens(o schedObs) (string, int, map[string]int) {
 		switch ev.Kind {
 		case "enter":
 			kind, parent, idx, name := ev.Args[0], ev.Args[1], ev.Args[2], ev.Args[3]
+			actTask[ev.Act] = taskIndex(name)
 			if kind == "top" {
 				fmt.Fprintf(&b, " enter top %s %d", idx, taskIndex(name))
 			} else {
 				fmt.Fprintf(&b, " enter %s %s %s %d", kind, parent, idx, taskIndex(name))
 			}
 		case "register", "waiter", "waitCycle":
-			k, ok := keys[ev.Args[0]]
+			// The model's dedup keys are opaque numbers.  A key stands for (task, hash): an execution is shared
+			// by the references of ONE task, so a hash that two different tasks arrive at is two keys for the
+			// model — the second task's `waiter` then names a key nobody registered and the log is rejected.
+			ks := fmt.Sprintf("%d|%s", actTask[ev.Act], ev.Args[0])
+			k, ok := keys[ks]
 			if !ok {
 				k = len(keys)
-				keys[ev.Args[0]] = k
+				keys[ks] = k
 			}
 			fmt.Fprintf(&b, " %s %d", ev.Kind, k)
 		case "cmdStart":
@@ -419,7 +773,7 @@ func maxAlive(evs []verifhook.Event) int {
 
 var schedCaseNo int
 
-const schedAccept = "accept C01=1 C02=1 C03=1 C06=1 C07=1 C13=1 C14=1 C03s=1"
+const schedAccept = "accept C01=1 C02=1 C03=1 C06=1 C07=1 C13=1 C14=1 C03s=1 C02v=1 C06k=1 C07a=1"
 
 func evalSched(d schedCase) (string, string, schedObs) {
 	schedCaseNo++
@@ -429,10 +783,10 @@ func evalSched(d schedCase) (string, string, schedObs) {
 	}
 	o := runSchedImpl(d, dir)
 	if o.setupErr != "" {
-		return "sched.run " + progTokens(d) + " E 0 R gen", "setup-error " + hx(o.setupErr), o
+		return "sched.run " + progTokens(d) + " E 0 R gen O 0", "setup-error " + hx(o.setupErr), o
 	}
 	tr, _, _ := traceTokens(o)
-	line := "sched.run " + progTokens(d) + " " + tr + " R " + o.result
+	line := "sched.run " + progTokens(d) + " " + tr + " R " + o.result + " " + obsTokens(o)
 	if o.hang {
 		return line, "hang", o
 	}
@@ -501,6 +855,10 @@ func (c *Ctx) genSched(maxTasks int, cyclic bool) schedCase {
 		if r.Intn(15) == 0 {
 			t.Internal = true
 		}
+		if r.Intn(16) == 0 {
+			t.CompileErr = 1 + r.Intn(4)
+			t.CompileSrc = r.Intn(2) == 0
+		}
 		t.IgnoreError = r.Intn(8) == 0
 		pick := func() int {
 			if cyclic && r.Intn(3) == 0 {
@@ -526,7 +884,7 @@ func (c *Ctx) genSched(maxTasks int, cyclic bool) schedCase {
 				if r.Intn(3) == 0 {
 					v = r.Intn(2)
 				}
-				t.Deps = append(t.Deps, sDep{tg, v})
+				t.Deps = append(t.Deps, sDep{Task: tg, Var: v})
 			}
 		}
 		nc := []int{0, 1, 2, 2, 3, 4}[r.Intn(6)]
@@ -582,7 +940,7 @@ func (c *Ctx) genCycle(dedup bool) schedCase {
 		t := sTask{Run: "always", PlatformOk: true, RequiresOk: true, EnumOk: true, PrecondOk: true}
 		next := (i + 1) % k
 		if r.Intn(2) == 0 {
-			t.Deps = []sDep{{next, -1}}
+			t.Deps = []sDep{{Task: next, Var: -1}}
 			if r.Intn(2) == 0 {
 				t.Cmds = append(t.Cmds, sCmd{Call: -1, Var: -1})
 			}
@@ -631,7 +989,7 @@ func (c *Ctx) genDedupCycle(shape int) (schedCase, string) {
 			t.Run = []string{"once", "once", "when_changed"}[r.Intn(3)]
 			next := (i + 1) % k
 			if r.Intn(2) == 0 {
-				t.Deps = []sDep{{next, -1}}
+				t.Deps = []sDep{{Task: next, Var: -1}}
 				if r.Intn(2) == 0 {
 					t.Cmds = append(t.Cmds, sCmd{Call: -1, Var: -1})
 				}
@@ -664,7 +1022,7 @@ func (c *Ctx) genDedupCycle(shape int) (schedCase, string) {
 			if r.Intn(2) == 0 {
 				t1.Cmds = []sCmd{{Call: 0, Var: -1}}
 			} else {
-				t1.Deps = []sDep{{0, -1}}
+				t1.Deps = []sDep{{Task: 0, Var: -1}}
 			}
 			d.Tasks = []sTask{t0, t1}
 		}
@@ -684,7 +1042,7 @@ func (c *Ctx) genBarrier() schedCase {
 	d := schedCase{Cap: 1 + r.Intn(2), Jitter: []int64{0, 100}[r.Intn(2)], Seed: r.Int63(), Calls: []int{0}, Barrier: k + 1}
 	t0 := sTask{Run: "always", PlatformOk: true, RequiresOk: true, EnumOk: true, PrecondOk: true}
 	for i := 1; i <= k; i++ {
-		t0.Deps = append(t0.Deps, sDep{i, -1})
+		t0.Deps = append(t0.Deps, sDep{Task: i, Var: -1})
 	}
 	if r.Intn(2) == 0 {
 		t0.Cmds = []sCmd{{Call: -1, Var: -1}}
@@ -748,7 +1106,7 @@ func (c *Ctx) genFlaky() schedCase {
 		t2.Cmds = []sCmd{{Call: 1, Var: -1}, {Call: 1, Var: -1}}
 		d.Tasks = append(d.Tasks, t2)
 		t3 := mk()
-		t3.Deps = []sDep{{0, -1}, {2, -1}}
+		t3.Deps = []sDep{{Task: 0, Var: -1}, {Task: 2, Var: -1}}
 		d.Tasks = append(d.Tasks, t3)
 		d.Calls = []int{3}
 	}
@@ -785,7 +1143,7 @@ func (c *Ctx) genSharedFail() schedCase {
 		f := mk()
 		f.Cmds = []sCmd{{Call: -1, Var: -1, Code: code}}
 		fi := add(f)
-		tasks[S].Deps = []sDep{{fi, -1}}
+		tasks[S].Deps = []sDep{{Task: fi, Var: -1}}
 	case 1: // S fails through a task it calls
 		f := mk()
 		f.Cmds = []sCmd{{Call: -1, Var: -1, Code: code}}
@@ -810,7 +1168,7 @@ func (c *Ctx) genSharedFail() schedCase {
 				u.Cmds = append(u.Cmds, sCmd{Call: -1, Var: -1})
 			}
 		} else {
-			u.Deps = []sDep{{target, -1}}
+			u.Deps = []sDep{{Task: target, Var: -1}}
 			if r.Intn(2) == 0 {
 				u.Cmds = append(u.Cmds, sCmd{Call: -1, Var: -1})
 			}
@@ -926,13 +1284,508 @@ func (c *Ctx) genCallIgnore() schedCase {
 		t2.Cmds = []sCmd{{Call: -1, Var: -1, Code: code}}
 		d.Tasks = []sTask{t0, t1, t2}
 	default:
-		t1.Deps = []sDep{{2, -1}}
+		t1.Deps = []sDep{{Task: 2, Var: -1}}
 		t1.Cmds = []sCmd{{Call: -1, Var: -1}}
 		t2 := mk()
 		t2.Cmds = []sCmd{{Call: -1, Var: -1, Code: code}}
 		d.Tasks = []sTask{t0, t1, t2}
 	}
 	return d
+}
+
+// decorate: the rendering choices (names) of a generated program.  The abstract program — what the model
+// sees — is unchanged: every task may get aliases or become a wildcard task, every reference (command line,
+// deps:, task: entries, deferred task calls) picks one of the callee's names at random, and one program in
+// four is written into an included Taskfile under names that contain ':' and share their last segment.
+func (c *Ctx) decorate(d *schedCase) {
+	r := c.Rng
+	d.Inc = r.Intn(4) == 0
+	for i := range d.Tasks {
+		t := &d.Tasks[i]
+		switch r.Intn(6) {
+		case 0, 1:
+			t.Aliases = 1 + r.Intn(2)
+		case 2:
+			t.Wild = true
+		}
+		for j := range t.Deps {
+			t.Deps[j].Ref = r.Intn(3)
+			t.Deps[j].TplName = r.Intn(8) == 0
+		}
+		for j := range t.Cmds {
+			if t.Cmds[j].Call >= 0 {
+				t.Cmds[j].Ref = r.Intn(3)
+				// a deferred task call is templated when it runs, the others when the task is compiled
+				t.Cmds[j].TplName = r.Intn(map[bool]int{true: 3, false: 8}[t.Cmds[j].Deferred]) == 0
+			}
+		}
+		if t.EnumKind == 0 && r.Intn(3) == 0 {
+			// the checked variable is a YAML number / boolean / arrives as a number in the call
+			t.EnumKind = 1 + r.Intn(3)
+		}
+	}
+	d.CallRefs = make([]int, len(d.Calls))
+	for k := range d.CallRefs {
+		d.CallRefs[k] = r.Intn(3)
+	}
+}
+
+// passify: what the references of a generated program hand to their callees as V (program data: the model's
+// Passes).  A reference that passes nothing so far gets, with probability 1/2, a literal, a variable of the
+// referring task or the referrer's own V; a deferred task call may pass the exit code its task ends with.
+func (c *Ctx) passify(d *schedCase) {
+	r := c.Rng
+	pick := func(deferred bool) int {
+		switch r.Intn(8) {
+		case 0:
+			return r.Intn(3)
+		case 1:
+			return -3
+		case 2:
+			return -4
+		case 3, 4:
+			if deferred {
+				return -2
+			}
+		}
+		return -1
+	}
+	for i := range d.Tasks {
+		t := &d.Tasks[i]
+		for j := range t.Deps {
+			if t.Deps[j].Var == -1 {
+				t.Deps[j].Var = pick(false)
+			}
+		}
+		for j := range t.Cmds {
+			if t.Cmds[j].Call >= 0 && t.Cmds[j].Var == -1 {
+				t.Cmds[j].Var = pick(t.Cmds[j].Deferred)
+			}
+		}
+	}
+}
+
+// genDeferCall: a task whose body fails with an exit status (or not) has deferred task: entries that hand the
+// callee the exit code (`vars: {V: '{{.EXIT_CODE}}'}`), a variable of the deferring task, a literal, its own V,
+// or nothing — some with a templated task name; the callee prints what it got.  The callers tolerate the failure
+// and call the task again, so the activations of one definition end with different codes.
+func (c *Ctx) genDeferCall() schedCase {
+	r := c.Rng
+	d := schedCase{Cap: []int{0, 0, 1, 2}[r.Intn(4)], Jitter: []int64{0, 0, 200}[r.Intn(3)], Seed: r.Int63(), Calls: []int{0}}
+	// t2: the callee of the deferred entries
+	callee := mkTask()
+	callee.Cmds = []sCmd{shOk()}
+	callee.Run = []string{"always", "always", "when_changed", "once"}[r.Intn(4)]
+	// t1: the deferring task
+	t1 := mkTask()
+	for k := 1 + r.Intn(3); k > 0; k-- {
+		t1.Cmds = append(t1.Cmds, sCmd{Call: 2, Deferred: true, Var: []int{-2, -2, -3, -4, 0, 1, -1}[r.Intn(7)]})
+	}
+	if r.Intn(3) == 0 {
+		t1.Cmds = append(t1.Cmds, sCmd{Call: -1, Var: -1, Deferred: true})
+	}
+	t1.Cmds = append(t1.Cmds, shOk())
+	code := 1 + r.Intn(9)
+	switch r.Intn(4) {
+	case 0:
+		t1.Cmds = append(t1.Cmds, sCmd{Call: -1, Var: -1, Code: 1000 + code})
+	case 1:
+		t1.Cmds = append(t1.Cmds, sCmd{Call: -1, Var: -1, Code: 2000 + code})
+	case 2:
+		t1.Cmds = append(t1.Cmds, sCmd{Call: -1, Var: -1, Code: code})
+	default:
+		t1.Cmds = append(t1.Cmds, shOk())
+	}
+	t0 := mkTask()
+	t0.IgnoreError = true
+	for k := 1 + r.Intn(3); k > 0; k-- {
+		t0.Cmds = append(t0.Cmds, sCmd{Call: 1, Var: []int{-1, 0, 1, 2}[r.Intn(4)]})
+	}
+	d.Tasks = []sTask{t0, t1, callee}
+	return d
+}
+
+// genOnceGroup: several DIFFERENT deduplicated tasks are reached in one invocation, each from two places
+// (dependencies and task: entries of a root and of one another); each must execute — once — on its own.
+func (c *Ctx) genOnceGroup() schedCase {
+	r := c.Rng
+	d := schedCase{Cap: []int{0, 0, 2}[r.Intn(3)], Jitter: []int64{0, 100, 500}[r.Intn(3)], Seed: r.Int63(), Calls: []int{0}}
+	k := 2 + r.Intn(3)
+	root := mkTask()
+	d.Tasks = []sTask{root}
+	for i := 1; i <= k; i++ {
+		t := mkTask()
+		t.Run = []string{"once", "once", "when_changed"}[r.Intn(3)]
+		t.Cmds = []sCmd{shOk()}
+		if i < k && r.Intn(2) == 0 {
+			if r.Intn(2) == 0 {
+				t.Deps = []sDep{{Task: i + 1, Var: -1}}
+			} else {
+				t.Cmds = append(t.Cmds, sCmd{Call: i + 1, Var: -1})
+			}
+		}
+		d.Tasks = append(d.Tasks, t)
+	}
+	for i := 1; i <= k; i++ {
+		if r.Intn(2) == 0 {
+			d.Tasks[0].Deps = append(d.Tasks[0].Deps, sDep{Task: i, Var: -1})
+		} else {
+			d.Tasks[0].Cmds = append(d.Tasks[0].Cmds, sCmd{Call: i, Var: -1})
+		}
+		if r.Intn(2) == 0 {
+			d.Tasks[0].Cmds = append(d.Tasks[0].Cmds, sCmd{Call: i, Var: -1})
+		}
+	}
+	d.Tasks[0].Cmds = append(d.Tasks[0].Cmds, shOk())
+	if r.Intn(3) == 0 {
+		d.Parallel = true
+		d.Calls = []int{0, 1 + r.Intn(k)}
+	}
+	return d
+}
+
+// genManyRefs: acyclic programs in which one task is referred to 1000 times or more: a binary tree of depth 10
+// (every level calls the next one twice: 1024 calls of the leaf), one task with 1001 `task:` entries for the same
+// callee (written as a `for:` loop), and the same with a run: once callee (999 of the references would only wait).
+// MaximumTaskCall counts calls of a task, not the depth of a recursion: the 1000th call ends with 204.
+func (c *Ctx) genManyRefs(shape int) (schedCase, string) {
+	r := c.Rng
+	d := schedCase{Cap: []int{0, 2}[r.Intn(2)], Seed: r.Int63(), Calls: []int{0}, ManyRefs: true}
+	switch shape {
+	case 0:
+		for i := 0; i < 10; i++ {
+			t := mkTask()
+			t.Cmds = []sCmd{{Call: i + 1, Var: -1}, {Call: i + 1, Var: -1}}
+			d.Tasks = append(d.Tasks, t)
+		}
+		leaf := mkTask()
+		leaf.Cmds = []sCmd{shOk()}
+		d.Tasks = append(d.Tasks, leaf)
+		return d, "binary-tree"
+	default:
+		t0 := mkTask()
+		for i := 0; i < 1001; i++ {
+			t0.Cmds = append(t0.Cmds, sCmd{Call: 1, Var: -1})
+		}
+		t0.Cmds = append(t0.Cmds, shOk())
+		t1 := mkTask()
+		t1.Cmds = []sCmd{shOk()}
+		d.Tasks = []sTask{t0, t1}
+		d.Loop = true
+		if shape == 2 {
+			d.Tasks[1].Run = "once"
+			return d, "once-task-1001-references"
+		}
+		return d, "for-loop-1001"
+	}
+}
+
+func mkTask() sTask {
+	return sTask{Run: "always", PlatformOk: true, RequiresOk: true, EnumOk: true, PrecondOk: true}
+}
+
+func shOk() sCmd { return sCmd{Call: -1, Var: -1} }
+
+// genCutShort: the ONE execution of a deduplicated task S is cut short by a cancellation that is local to the
+// caller that started it — S is reached (directly or through a middle task) from the dependency group of G, in
+// which a sibling dependency F fails at once while S still has commands to run (or has not begun) — the failure
+// of G is swallowed by a tolerant ancestor T (`ignore_error: true`, `task: G`), and a caller W OUTSIDE that
+// group refers to S too: later (sequential command-line calls, a later command), or concurrently (--parallel
+// calls, a sibling dependency).  W's context is alive; it must observe that S's one execution did not succeed.
+func (c *Ctx) genCutShort() (schedCase, string) {
+	r := c.Rng
+	d := schedCase{Cap: []int{0, 0, 0, 2, 3}[r.Intn(5)], Jitter: []int64{0, 50, 300, 1000}[r.Intn(4)], Seed: r.Int63()}
+	var tasks []sTask
+	add := func(t sTask) int { tasks = append(tasks, t); return len(tasks) - 1 }
+	s := mkTask()
+	s.Run = []string{"once", "once", "when_changed"}[r.Intn(3)]
+	if r.Intn(4) == 0 {
+		s.Cmds = append(s.Cmds, sCmd{Call: -1, Var: -1, Deferred: true})
+	}
+	for k := 3 + r.Intn(3); k > 0; k-- {
+		s.Cmds = append(s.Cmds, shOk())
+	}
+	S := add(s)
+	f := mkTask()
+	f.Cmds = []sCmd{{Call: -1, Var: -1, Code: 1 + r.Intn(9)}}
+	F := add(f)
+	// the route from G's dependency group to S
+	via := S
+	if r.Intn(2) == 0 {
+		m := mkTask()
+		if r.Intn(2) == 0 {
+			m.Deps = []sDep{{Task: S, Var: -1}}
+			m.Cmds = []sCmd{shOk()}
+		} else {
+			m.Cmds = []sCmd{shOk(), {Call: S, Var: -1}, shOk()}
+		}
+		via = add(m)
+	}
+	g := mkTask()
+	g.Deps = []sDep{{Task: via, Var: -1}, {Task: F, Var: -1}}
+	if r.Intn(2) == 0 {
+		g.Deps[0], g.Deps[1] = g.Deps[1], g.Deps[0]
+	}
+	g.Cmds = []sCmd{shOk()}
+	G := add(g)
+	t := mkTask()
+	t.IgnoreError = true
+	if r.Intn(2) == 0 {
+		t.Cmds = append(t.Cmds, shOk())
+	}
+	t.Cmds = append(t.Cmds, sCmd{Call: G, Var: -1})
+	if r.Intn(2) == 0 {
+		t.Cmds = append(t.Cmds, shOk())
+	}
+	T := add(t)
+	// W: outside G's group; it reaches S as a dependency (C01) or through a task: entry (C06), after a few
+	// commands of its own or of a middle task so that G's side usually registers S first
+	w := mkTask()
+	if r.Intn(2) == 0 {
+		w.Deps = []sDep{{Task: S, Var: -1}}
+		if r.Intn(2) == 0 {
+			m := mkTask()
+			m.Cmds = []sCmd{shOk(), shOk(), {Call: S, Var: -1}}
+			w.Deps = []sDep{{Task: add(m), Var: -1}}
+		}
+		w.Cmds = []sCmd{shOk()}
+	} else {
+		for k := 1 + r.Intn(3); k > 0; k-- {
+			w.Cmds = append(w.Cmds, shOk())
+		}
+		w.Cmds = append(w.Cmds, sCmd{Call: S, Var: -1}, shOk())
+	}
+	W := add(w)
+	shape := ""
+	switch r.Intn(4) {
+	case 0:
+		shape = "sequential-calls"
+		d.Calls = []int{T, W}
+	case 1:
+		shape = "later-command"
+		root := mkTask()
+		root.Cmds = []sCmd{{Call: T, Var: -1}, {Call: W, Var: -1}, shOk()}
+		d.Calls = []int{add(root)}
+	case 2:
+		shape = "parallel-calls"
+		d.Parallel = true
+		d.Calls = [][]int{{T, W}, {W, T}}[r.Intn(2)]
+	default:
+		shape = "sibling-deps"
+		root := mkTask()
+		root.Deps = []sDep{{Task: T, Var: -1}, {Task: W, Var: -1}}
+		root.Cmds = []sCmd{shOk()}
+		d.Calls = []int{add(root)}
+	}
+	d.Tasks = tasks
+	return d, shape
+}
+
+// cutShortSeen: did an activation wait for (or find finished) a deduplicated execution that ended with an error
+// while a member of its caller's dependency group had failed — the situation genCutShort aims at?
+func cutShortSeen(evs []verifhook.Event) bool {
+	reg := map[string]int64{}
+	bad := map[int64]bool{}
+	for _, e := range evs {
+		switch e.Kind {
+		case "register":
+			reg[e.Args[0]] = e.Act
+		case "ctxErr":
+			bad[e.Act] = true
+		case "cmdEnd":
+			a := e.Args
+			if len(a) > 0 && a[0] == "deferred" {
+				continue
+			}
+			if len(a) > 1 && a[1] == "ctx" {
+				bad[e.Act] = true
+			}
+		}
+	}
+	for _, e := range evs {
+		if e.Kind == "waiter" {
+			if x, ok := reg[e.Args[0]]; ok && bad[x] {
+				return true
+			}
+		}
+	}
+	return false
+}
+
+// genGuards: several guards of ONE task fail at once (each guard outcome drawn independently with
+// probability 1/2): the order in which RunTask asks them decides the result (a task excluded by `platforms:`
+// is skipped silently whatever else is wrong with it; a missing required variable wins over a value outside
+// its enum, both over the call limit, preconditions over status / prompt).  The guarded task is a command-line
+// call, a dependency or a task: entry; some are deduplicated.
+func (c *Ctx) genGuards() schedCase {
+	r := c.Rng
+	d := schedCase{Cap: []int{0, 0, 1, 2}[r.Intn(4)], Jitter: []int64{0, 0, 200}[r.Intn(3)], Seed: r.Int63()}
+	d.Yes = r.Intn(3) == 0
+	if r.Intn(2) == 0 {
+		d.Term = true
+		d.Answer = []string{"y", "n", "eof"}[r.Intn(3)]
+	}
+	d.Force = r.Intn(6) == 0
+	d.ForceAll = r.Intn(8) == 0
+	gt := mkTask()
+	gt.PlatformOk = r.Intn(2) == 0
+	gt.RequiresOk = r.Intn(2) == 0
+	gt.EnumOk = r.Intn(2) == 0
+	gt.PrecondOk = r.Intn(2) == 0
+	gt.UpToDate = r.Intn(2) == 0
+	gt.Prompt = r.Intn(2) == 0
+	if r.Intn(2) == 0 {
+		gt.CompileErr = 1 + r.Intn(4)
+		gt.CompileSrc = r.Intn(2) == 0
+	}
+	gt.Run = []string{"always", "always", "once", "when_changed"}[r.Intn(4)]
+	gt.Cmds = []sCmd{shOk()}
+	if r.Intn(3) == 0 {
+		gt.Cmds = append([]sCmd{{Call: -1, Var: -1, Deferred: true}}, gt.Cmds...)
+	}
+	if r.Intn(3) == 0 {
+		h := mkTask()
+		h.Cmds = []sCmd{shOk()}
+		d.Tasks = []sTask{gt, h}
+		d.Tasks[0].Deps = []sDep{{Task: 1, Var: -1}}
+	} else {
+		d.Tasks = []sTask{gt}
+	}
+	G := 0
+	caller := mkTask()
+	switch r.Intn(3) {
+	case 0:
+		d.Calls = []int{G}
+		if r.Intn(2) == 0 {
+			d.Calls = []int{G, G}
+		}
+	case 1:
+		caller.Deps = []sDep{{Task: G, Var: -1}}
+		caller.Cmds = []sCmd{shOk()}
+		d.Tasks = append(d.Tasks, caller)
+		d.Calls = []int{len(d.Tasks) - 1}
+	default:
+		caller.Cmds = []sCmd{shOk(), {Call: G, Var: -1}, shOk()}
+		if r.Intn(2) == 0 {
+			caller.Cmds = append(caller.Cmds, sCmd{Call: G, Var: -1})
+		}
+		d.Tasks = append(d.Tasks, caller)
+		d.Calls = []int{len(d.Tasks) - 1}
+	}
+	return d
+}
+
+// genPromptSlots: tasks whose prompt is confirmed (--yes, or a terminal answering "y") under a concurrency
+// limit, with other work competing for the slots: several command-line calls under --parallel, sibling
+// dependencies, nested task: calls and dependencies below the prompted task.  A task holds its slot while it
+// asks and while its commands run (the bound and the release/acquire pairing are read off the log).
+func (c *Ctx) genPromptSlots() schedCase {
+	r := c.Rng
+	d := schedCase{Cap: 1 + r.Intn(2), Jitter: []int64{0, 100, 500}[r.Intn(3)], Seed: r.Int63()}
+	if r.Intn(2) == 0 {
+		d.Yes = true
+	} else {
+		d.Term, d.Answer = true, "y"
+	}
+	leaf := mkTask()
+	leaf.Cmds = []sCmd{shOk()}
+	d.Tasks = []sTask{leaf}
+	k := 2 + r.Intn(2)
+	var tops []int
+	for i := 0; i < k; i++ {
+		t := mkTask()
+		t.Prompt = r.Intn(3) > 0
+		t.Cmds = []sCmd{shOk()}
+		switch r.Intn(3) {
+		case 0:
+			t.Cmds = append(t.Cmds, sCmd{Call: 0, Var: -1}, shOk())
+		case 1:
+			t.Deps = []sDep{{Task: 0, Var: -1}}
+		default:
+			t.Cmds = append(t.Cmds, shOk())
+		}
+		d.Tasks = append(d.Tasks, t)
+		tops = append(tops, len(d.Tasks)-1)
+	}
+	if r.Intn(2) == 0 {
+		d.Parallel = true
+		d.Calls = tops
+	} else {
+		root := mkTask()
+		for _, t := range tops {
+			root.Deps = append(root.Deps, sDep{Task: t, Var: -1})
+		}
+		root.Cmds = []sCmd{shOk()}
+		d.Tasks = append(d.Tasks, root)
+		d.Calls = []int{len(d.Tasks) - 1}
+	}
+	return d
+}
+
+// valueHits: which kinds of passed values the run's commands showed
+func (c *Ctx) valueHits(d schedCase, o schedObs) {
+	kindOf := map[int64][2]string{}
+	for _, e := range o.events {
+		switch e.Kind {
+		case "enter":
+			kindOf[e.Act] = [2]string{e.Args[0], e.Args[3]}
+		case "cmdStart":
+			m := vRe.FindStringSubmatch(strings.Join(e.Args, " "))
+			if m == nil || m[1] == "" {
+				continue
+			}
+			k := kindOf[e.Act][0]
+			switch {
+			case strings.HasPrefix(m[1], "L"):
+				c.Hit("value:" + k + ":variable-of-the-referrer")
+			default:
+				c.Hit("value:" + k + ":number")
+			}
+		}
+	}
+	for _, t := range d.Tasks {
+		for _, cm := range t.Cmds {
+			if cm.Call >= 0 && cm.Deferred && cm.TplName {
+				c.Hit("render:deferred-call-templated-name")
+			}
+		}
+		if t.EnumKind > 0 {
+			c.Hit(fmt.Sprintf("render:enum-kind-%d:ok=%v", t.EnumKind, t.EnumOk))
+		}
+	}
+}
+
+// renderHits: which kinds of names the activations of the run were called by
+func (c *Ctx) renderHits(d schedCase, o schedObs) {
+	for _, e := range o.events {
+		if e.Kind != "enter" {
+			continue
+		}
+		i := taskIndex(e.Args[3])
+		if i < 0 || i >= len(d.Tasks) {
+			continue
+		}
+		name := strings.TrimPrefix(e.Args[3], "n:")
+		t := d.Tasks[i]
+		hasDefer := false
+		for _, cm := range t.Cmds {
+			if cm.Deferred {
+				hasDefer = true
+			}
+		}
+		switch {
+		case t.Wild:
+			c.Hit("render:called-as-wildcard-match")
+			if hasDefer {
+				c.Hit("render:task-with-defer-called-as-wildcard-match")
+			}
+		case name != d.keyName(i):
+			c.Hit("render:called-by-alias")
+			if hasDefer {
+				c.Hit("render:task-with-defer-called-by-alias")
+			}
+		}
+	}
 }
 
 func hasCycleThroughDedup(d schedCase) bool {
@@ -1013,8 +1866,34 @@ func runSched(c *Ctx) {
 		} else if i%10 == 5 {
 			d = c.genSharedFail()
 			c.Hit("stream:shared-fail")
+		} else if i%10 == 9 {
+			var shape string
+			d, shape = c.genCutShort()
+			c.Hit("stream:cut-short:" + shape)
+		} else if i%20 == 1 {
+			d = c.genGuards()
+			c.Hit("stream:guard-pairs")
+		} else if i%20 == 11 {
+			d = c.genPromptSlots()
+			c.Hit("stream:prompt-slots")
+		} else if i%20 == 17 {
+			d = c.genDeferCall()
+			c.Hit("stream:defer-call-vars")
+		} else if i%20 == 16 {
+			d = c.genOnceGroup()
+			c.Hit("stream:once-group")
 		} else {
 			d = c.genSched(c.Pick(7, 10), false)
+		}
+		if d.Barrier == 0 {
+			c.passify(&d)
+		}
+		c.decorate(&d)
+		if i%20 == 16 {
+			d.Inc = i%40 == 16 // every other group lives in an included file, under names sharing their last segment
+		}
+		if cyclic {
+			d.Inc = false // 1000 nested calls: keep the case as cheap as it can be
 		}
 		for s := 0; s < sched && !(cyclic && s > 0); s++ {
 			d.Seed = c.Rng.Int63()
@@ -1045,6 +1924,21 @@ func runSched(c *Ctx) {
 			if cyclic {
 				c.Hit("cyclic")
 			}
+			if cutShortSeen(o.events) {
+				c.Hit("c06:waiter-of-cut-short-execution")
+			}
+			if d.Inc {
+				c.Hit("render:included-colon-names")
+			}
+			for _, e := range o.events {
+				if e.Kind == "enter" {
+					if i := taskIndex(e.Args[3]); i < len(d.Tasks) && d.Tasks[i].CompileErr > 0 && d.Tasks[i].PlatformOk && d.Tasks[i].RequiresOk {
+						c.Hit(map[bool]string{true: "compile-error:with-sources", false: "compile-error:without-sources"}[d.Tasks[i].CompileSrc])
+					}
+				}
+			}
+			c.renderHits(d, o)
+			c.valueHits(d, o)
 			if maxAlive(o.events) >= 2 || kinds["waiter"] || kinds["precondFail"] || kinds["promptFail"] || kinds["upToDate"] || o.result != "ok" {
 				c.Distinct(schedKey(d, o))
 			}
@@ -1060,6 +1954,7 @@ func runSched(c *Ctx) {
 	// reference cycles through run: once / when_changed tasks: the wait that would close the cycle is refused
 	for i := 0; i < c.Pick(9, 60) && hangs < 3; i++ {
 		d, shape := c.genDedupCycle(i % 3)
+		c.decorate(&d)
 		cl, il, o := evalSched(d)
 		if o.hang {
 			hangs++
@@ -1081,6 +1976,20 @@ func runSched(c *Ctx) {
 		if nCut > 1 {
 			c.Hit("dedup-cycle:several-refused-waits")
 		}
+		c.Distinct(schedKey(d, o))
+		c.Emit(cl, il, d)
+	}
+	// acyclic programs with >= 1000 references to one task (open finding: the call limit hits them)
+	// (quick tier: the cheap shape only — the run: once callee; the tree and the loop take 10–20 s each)
+	for i := 0; i < c.Pick(1, 6) && hangs < 3; i++ {
+		d, shape := c.genManyRefs((i + 2) % 3)
+		cl, il, o := evalSched(d)
+		if o.hang {
+			hangs++
+		}
+		evTotal += len(o.events)
+		c.Hit("stream:many-refs:" + shape)
+		c.Hit("many-refs:result:" + o.result)
 		c.Distinct(schedKey(d, o))
 		c.Emit(cl, il, d)
 	}
